@@ -271,6 +271,13 @@ type graph struct {
 	missing []string
 	bad     []string
 	ids     map[common.Hash]int
+	blobs   []blobCase // sampled (blob, role, decoded references) for the concrete model's decoder
+}
+
+type blobCase struct {
+	r    role
+	blob []byte
+	refs []common.Hash
 }
 
 func newGraph() *graph {
@@ -314,6 +321,18 @@ func (g *graph) walk(tdb *trie.NodeDatabase, h common.Hash, r role) {
 		if err != nil {
 			g.bad = append(g.bad, fmt.Sprintf("%x: %v", it.h[:6], err))
 			continue
+		}
+		if it.r != roleCode && len(g.blobs) < 40 && (len(refs) > 0 || len(g.blobs)%4 == 0) {
+			// the pure decode (no zero-length-code exception), for the model's decoder
+			saved := codeStored
+			codeStored = func(common.Hash) bool { return true }
+			pure, _ := blobRefs(blob, it.r)
+			codeStored = saved
+			bc := blobCase{r: it.r, blob: blob}
+			for _, c := range pure {
+				bc.refs = append(bc.refs, c.h)
+			}
+			g.blobs = append(g.blobs, bc)
 		}
 		have := map[common.Hash]int{}
 		for _, c := range g.kids[it.h] {
@@ -709,10 +728,13 @@ type rootInfo struct {
 type runner struct {
 	res     *hx.Result
 	cs      *hx.Cases
+	bs      *hx.Cases // blob decoding cases (small, many per shard)
 	tier    string
 	budget  int // cold-read entries per commit before sampling kicks in
 	commits int
 	points  int
+	// model cases that decode a real blob with the concrete model
+	blobCases, blobBudget int
 }
 
 func hashOfKey(k string) (common.Hash, bool) {
@@ -1138,6 +1160,22 @@ func (rn *runner) history(p histParams) {
 		rn.res.Note(fmt.Sprintf("history %d: %s", p.seed, s))
 		rn.res.Histogram["graph-decode-anomaly"]++
 	}
+	for i, bc := range g.blobs {
+		if rn.blobCases >= rn.blobBudget {
+			break
+		}
+		if i%3 != 0 && bc.r == roleAccount { // keep every storage-trie node, a third of the account-trie nodes
+			continue
+		}
+		rn.blobCases++
+		items := make([]string, len(bc.refs))
+		for j, c := range bc.refs {
+			items[j] = hx.CoqHex(c[:])
+		}
+		rn.bs.Add(fmt.Sprintf("Blob %d %s %s %s %s", int(bc.r), hx.CoqHex(emptyRoot[:]), hx.CoqHex(emptyCodeHash[:]), hx.CoqHex(bc.blob), hx.CoqList(items)),
+			map[string]interface{}{"history_seed": p.seed, "blob_role": int(bc.r), "blob": hex.EncodeToString(bc.blob)})
+		rn.res.Histogram[fmt.Sprintf("blob-decode-case:role%d", int(bc.r))]++
+	}
 	if len(commitTerms) > 0 {
 		desc["commits"] = len(commitTerms)
 		desc["puts"] = totalPuts
@@ -1444,9 +1482,11 @@ func main() {
 		perShard = 30
 	}
 	cs := hx.NewCases(a.Out, "From V.C03 Require Import Model Harness.\nFrom Coq Require Import NArith.\nOpen Scope N_scope.", "c03case", "check", perShard)
-	rn := &runner{res: res, cs: cs, tier: a.Tier, budget: 400000}
+	bs := hx.NewCasesNamed(a.Out, "blob", "From V.C03 Require Import Model Harness.\nFrom Coq Require Import NArith.\nOpen Scope N_scope.", "c03case", "check", 150)
+	rn := &runner{res: res, cs: cs, bs: bs, tier: a.Tier, budget: 400000, blobBudget: 250}
 	if a.Tier == "thorough" {
 		rn.budget = 8000000
+		rn.blobBudget = 1500
 	}
 
 	// inventory obligation
@@ -1488,6 +1528,7 @@ func main() {
 	res.Histogram["histories"] = h
 	res.Histogram["disk-commits"] = rn.commits
 	cs.Close()
-	res.ModelCases = cs.Total()
+	bs.Close()
+	res.ModelCases = cs.Total() + bs.Total()
 	res.Write(a.Out)
 }
